@@ -1,13 +1,13 @@
 #!/bin/sh
-# tools/mut.sh <patch.diff | -R commit> <prop> [tier] [jobs]
+# tools/mut.sh <patch.diff | -R commit> <prop> [tier] [jobs] [extra bin/check arguments, e.g. --only <regex>]
 # Evaluate one check against a modified copy of the repository: a scratch copy of /repo's HEAD is made under /tmp, the
 # change is applied THERE and the check runs with PYVC_REPO pointing at the copy (the engine, the native replay and the
 # specifications are the same).  /repo itself is not touched, so several of these can run side by side.
 if [ "$1" = "-R" ]; then rev=1; shift; fi
-p="$1"; [ -z "$rev" ] && p=$(readlink -f "$p"); prop="$2"; tier="${3:-quick}"; jobs="${4:-8}"
+p="$1"; [ -z "$rev" ] && p=$(readlink -f "$p"); prop="$2"; tier="${3:-quick}"; jobs="${4:-8}"; [ $# -ge 4 ] && shift 4 || shift $#
 d=$(mktemp -d /tmp/mutrepo.XXXXXX)
 git -C /repo archive HEAD | tar -x -C "$d" || exit 9
 if [ -n "$rev" ]; then (cd "$d" && git -C /repo show "$p" -- crysp | patch -s -R -p1) || { rm -rf "$d"; exit 9; }
 else (cd "$d" && patch -s -p1 < "$p") || { rm -rf "$d"; exit 9; }; fi
-PYVC_REPO="$d" PYVC_JOBS="$jobs" /verif/bin/check "$prop" "$tier" --no-evidence 2>&1 | grep -E "^(VIOLATION|UNDECIDED|CHECKER|property=)" | cut -c1-230 | awk '/^property=/{print;next} n<6{print;n++}' 
+PYVC_REPO="$d" PYVC_JOBS="$jobs" /verif/bin/check "$prop" "$tier" --no-evidence "$@" 2>&1 | grep -E "^(VIOLATION|UNDECIDED|CHECKER|property=)" | cut -c1-230 | awk '/^property=/{print;next} n<6{print;n++}' 
 rm -rf "$d"
